@@ -183,8 +183,7 @@ package libschema
 
 //@ func builtinNoOtherKeys$1
 //@   requires input != nil
-//@   panics-when [never-on-a-non-map] false
-//@   ensures  [non-map-refused-when-no-key-constraint-ran] old(input.Type) != lisp.LSortMap && len(*constraints) == 0 ==> isErrOf(result, "wrong-type")
+//@   ensures  [non-map-refused] old(input.Type) != lisp.LSortMap ==> isErrOf(result, "wrong-type")
 //@   property C14
 
 //@ func builtinArrayOf$1
